@@ -19,10 +19,11 @@ package reverse
 //@ func reverse
 //@   props C19
 //@   mode int
+//@   reveal decodedAs
 //@   ensures fresh(result) && len(result) == len(s)
-//@   loop 0: invariant 0 <= i && i <= len(inputRunes) && cursorIn == runeOff(s, i) && cursorOut == len(s) - cursorIn && len(output) == len(s) && fresh(output) && fresh(inputRunes) && len(inputRunes) == utf8.RuneCount(s)
+//@   loop 0: invariant 0 <= i && i <= len(inputRunes) && cursorIn == runeOff(s, i) && cursorOut == len(s) - cursorIn && len(output) == len(s) && fresh(output) && fresh(inputRunes) && len(inputRunes) == utf8.RuneCount(s) && decodedAs(s, inputRunes)
 //@   loop 0: decreases len(s) - cursorIn
-//@   loop 1: invariant 1 <= i && i <= len(inputRunes) && cursorIn + wid == runeOff(s, i) && wid >= 1 && cursorOut == len(s) - cursorIn && len(output) == len(s) && fresh(output) && fresh(inputRunes) && len(inputRunes) == utf8.RuneCount(s)
+//@   loop 1: invariant 1 <= i && i <= len(inputRunes) && cursorIn + wid == runeOff(s, i) && wid >= 1 && cursorOut == len(s) - cursorIn && len(output) == len(s) && fresh(output) && fresh(inputRunes) && len(inputRunes) == utf8.RuneCount(s) && decodedAs(s, inputRunes)
 //@   loop 1: decreases len(inputRunes) - i
 
 //@ func ReverseFilter.Filter
